@@ -49,7 +49,9 @@ type c03Case struct {
 	Ops      []c03Op   `json:"ops"`
 }
 
-var c03Keys = []string{"a", "b", "c", "d", "e", "zz", "", "A", "Batch", "batch"}
+// (the last four: letters whose upper and lower case forms differ in UTF-8 length - U+023A / U+2C65, and the Kelvin
+// sign U+212A whose lower case is the ASCII k; simple case folding and lower-casing agree on all of them)
+var c03Keys = []string{"a", "b", "c", "d", "e", "zz", "", "A", "Batch", "batch", "ⱥcme", "ȺCME", "K", "k"}
 
 // c03Noisy: (fraction, limit) pairs whose product in IEEE double lies within 1e-9 of an integer without being one
 // (0.07 x 100 = 7.000000000000001, 0.29 x 100 = 28.999999999999996, ...). The documented share is the ceiling of
@@ -92,7 +94,7 @@ func genC03(t *rapid.T) c03Case {
 	}
 	names := []string{"a", "b", "c", "d", "e"}
 	if c.Matcher {
-		names = append(names, "A", "Batch") // match strings with upper-case letters, in both modes of the matcher
+		names = append(names, "A", "Batch", "ⱥcme", "K") // match strings with upper-case letters and with letters that change length with their case, in both modes of the matcher
 	}
 	if c.Kind == "lookup" {
 		names = append(names, "") // the empty string is a key like any other (it is what the default lookup yields for a context without a key)
@@ -152,6 +154,11 @@ func genC03(t *rapid.T) c03Case {
 		case k < 15:
 			return c03Op{K: "rel", Idx: rapid.IntRange(0, 1000).Draw(t, "idx")}
 		case k < 17:
+			if rapid.IntRange(0, 9).Draw(t, "cycles") == 0 {
+				// a long stretch of ordinary traffic on one key: N grants, each released at once (a strategy that has
+				// admitted thousands of requests while other tokens stay out)
+				return c03Op{K: "cycles", Key: rapid.SampledFrom(c03Keys).Draw(t, "cyclesKey"), N: rapid.SampledFrom([]int{100, 255, 256, 1023, 1024, 1025, 2050, 4100}).Draw(t, "nCycles")}
+			}
 			if rapid.IntRange(0, 7).Draw(t, "burst") == 0 {
 				// the limit moves many times in a row (an adaptive limit does that window after window) while some
 				// partitions are not touched at all; counts around powers of two on purpose
@@ -372,7 +379,17 @@ func runC03(_ *testing.T, c c03Case) (out kit.Outcome) {
 	if o := observe(-1, c03Op{K: "construct"}); o != nil {
 		return *o
 	}
-	for i, op := range c.Ops {
+	ops := make([]c03Op, 0, len(c.Ops))
+	for _, op := range c.Ops {
+		if op.K != "cycles" {
+			ops = append(ops, op)
+			continue
+		}
+		for r := 0; r < op.N; r++ {
+			ops = append(ops, c03Op{K: "acq", Key: op.Key}, c03Op{K: "rel", Idx: -1})
+		}
+	}
+	for i, op := range ops {
 		switch op.K {
 		case "acq":
 			actx, routed, keyed := c03CtxMode(c.Kind, op.Key, op.Mode)
@@ -428,7 +445,10 @@ func runC03(_ *testing.T, c c03Case) (out kit.Outcome) {
 			if len(held) == 0 {
 				continue
 			}
-			k := op.Idx % len(held)
+			k := len(held) - 1 // Idx < 0: the token granted last
+			if op.Idx >= 0 {
+				k = op.Idx % len(held)
+			}
 			h := held[k]
 			held = append(held[:k], held[k+1:]...)
 			h.t.Release()
